@@ -228,3 +228,98 @@ class M(Model):
         if int(obs.step_count) != int(s.step_count):
             out.append(("step_count differs from the state", f"{int(obs.step_count)} vs {int(s.step_count)}"))
         return out
+
+
+# ------------------------------------------------------------------ C09: episodes that end by completion
+# Sokoban has no mask and no solver mode in the plan interpreter, so generated play never solves a
+# level and the "+10 / all boxes on targets -> LAST" transition stays unreached.  The synthetic
+# shard solves the SimpleSolveGenerator level (4 boxes in a row, each one cell below its target)
+# against the real env: for a Hypothesis-drawn order of the boxes it walks (BFS on the host state,
+# around walls and boxes) to the cell from which the box can be pushed onto its target and pushes,
+# with Hypothesis-drawn stray actions in between (which may also push boxes off targets or wedge
+# them).  Every transition is compared with `predict` by the generic C09 monitor.
+SYNTHETIC_SHARDS = {"quick": 1, "thorough": 1}
+_SYN: dict = {}
+
+
+def _syn_bundle(cfg="simple_t120"):
+    from vf import envs
+
+    if cfg not in _SYN:
+        import jumanji.environments as E
+        from jumanji.environments.routing.sokoban.generator import SimpleSolveGenerator
+
+        _SYN[cfg] = envs.Bundle("Sokoban", f"syn_{cfg}", env=E.Sokoban(generator=SimpleSolveGenerator(), time_limit=120))
+    return _SYN[cfg]
+
+
+def _push_plan(hs, order):
+    """Next action towards pushing some box onto an adjacent target (boxes tried in `order`), or
+    None when no such push is reachable."""
+    from vf.models.cleaner import bfs_first_move
+
+    fixed, var = np.asarray(hs.fixed_grid), np.asarray(hs.variable_grid)
+    agent = M._agent(hs)
+    boxes = [tuple(x) for x in np.argwhere((var == BOX) & (fixed != TARGET)).tolist()]
+    passable = (fixed != WALL) & (var != BOX)
+    for i in order:
+        if not boxes:
+            break
+        br, bc = boxes[i % len(boxes)]
+        for a, (dr, dc) in enumerate(MOVES):
+            tr, tc = br + dr, bc + dc      # where the box would go
+            sr, sc = br - dr, bc - dc      # where the agent must stand
+            if not (M._inside(tr, tc) and M._inside(sr, sc)):
+                continue
+            if fixed[tr, tc] != TARGET or var[tr, tc] == BOX or not passable[sr, sc]:
+                continue
+            if (sr, sc) == agent:
+                return a
+            goal = np.zeros((N, N), bool)
+            goal[sr, sc] = True
+            step = bfs_first_move(passable, agent, goal)
+            if step is not None:
+                return step
+    return None
+
+
+def _syn_policy(order, noise):
+    def policy(hs, t):
+        z = noise[t % len(noise)]
+        if z % 7 == 0:
+            return np.asarray(z // 7 % 4)
+        a = _push_plan(hs, order)
+        return np.asarray(z % 4 if a is None else a)
+    return policy
+
+
+def synthetic_c09(ctx, item, seed, tier):
+    from vf import episodes, hyp
+    from vf.hyp import st
+    from vf.models.cleaner import synthetic_episode
+
+    b = _syn_bundle()
+    model = M(b)
+
+    def one(key, order, noise):
+        extra = {"synthetic": True, "config": "simple_t120"}
+        hs, ended = synthetic_episode(b, ctx, model, key, _syn_policy(order, noise), 120, extra)
+        ctx.count("synthetic_episodes")
+        if ended and model._on_target(hs) == NBOX:
+            ctx.count("synthetic_episodes_solved")
+
+    hyp.drive({"key": episodes.keys(), "order": st.permutations([0, 1, 2, 3]),
+               "noise": st.lists(st.integers(1, 2**16), min_size=3, max_size=20)},
+              one, seed + 4242, 12 if tier == "quick" else 80)
+
+
+def synthetic_replay(case):
+    from vf import episodes
+    from vf import modelprops as mp
+    from vf.runner import Ctx
+
+    ctx = Ctx("C09", {})
+    b = _syn_bundle(case.get("config", "simple_t120"))
+    rec = episodes.Recorder(ctx, b, case["key"], extra={"synthetic": True, "config": case.get("config", "simple_t120")})
+    episodes.run_actions(b, rec, case["actions"], mp.C09Mon(b, ctx, M(b)))
+    return [(f["oracle"], f["sig"], f["msg"]) for f in ctx.failures.values()]
